@@ -73,6 +73,12 @@ def gen(rp, rw, tier):
             # the two endpoints: same named zone (identity decided by the cache), different zones, or fixed
             za = gen_dt.pick_zone(rp, allow_fixed=True, midnight_bias=0.2)
             zb = za if rp.random() < 0.6 else gen_dt.pick_zone(rp, allow_fixed=True, midnight_bias=0.2)
+            if rp.random() < 0.06:
+                # zones more than a day apart, instants closer than that
+                za = rp.choice(["Pacific/Kiritimati", 50400, 49500])
+                zb = rp.choice(["Etc/GMT+12", "Pacific/Pago_Pago", -43200, -39600])
+                if rp.random() < 0.5:
+                    za, zb = zb, za
             A, ma = _endpoint(rp, za)
             B, mb = _endpoint(rp, zb, near=ma["inst"])
             if rp.random() < 0.3:
